@@ -230,8 +230,8 @@ class CallbackSuite(Suite):
 
     def gen_cases(self, rng, tier):
         if tier == "quick":
-            return (gen_sequential() + gen_exhaustive(CORE, 7) + gen_exhaustive(CORE[:8], 6, with_dtor=True)
-                    + gen_random(rng, 1500) + gen_contract(rng, 60))
+            return (gen_sequential() + gen_exhaustive(HEADERS, 6) + gen_exhaustive(CORE, 8) + gen_exhaustive(HEADERS, 5, with_dtor=True)
+                    + gen_random(rng, 4000) + gen_contract(rng, 100))
         return (gen_sequential() + gen_exhaustive(HEADERS, 8) + gen_exhaustive(HEADERS, 7, with_dtor=True)
                 + gen_exhaustive(CORE, 10) + gen_exhaustive3(rng, HEADERS, 8, 24) + gen_random(rng, 40000) + gen_contract(rng, 600))
 
